@@ -338,6 +338,51 @@ pub fn run(run: &Run) {
             }
         });
     }
+    // implies_lut on multi-word tables: cubes with literals on the high variables, functions
+    // that are the cube itself, near-implicants (the cube minus one point) and alphabet tables
+    for k in 6..=9usize {
+        let mut masks: Vec<(u32, u32)> = vec![(0, 0)];
+        let hi: Vec<u32> = (0..k as u32).filter(|v| *v >= 4).collect();
+        for (i, a) in hi.iter().enumerate() {
+            for pa in [true, false] {
+                let la = if pa { (1u32 << a, 0u32) } else { (0u32, 1u32 << a) };
+                masks.push(la);
+                masks.push((la.0 | 1, la.1));
+                for b in hi.iter().skip(i + 1) {
+                    for pb in [true, false] {
+                        let lb = if pb { (1u32 << b, 0u32) } else { (0u32, 1u32 << b) };
+                        masks.push((la.0 | lb.0, la.1 | lb.1));
+                        masks.push((la.0 | lb.0, la.1 | lb.1 | 2));
+                    }
+                }
+            }
+        }
+        masks.sort();
+        masks.dedup();
+        let pats = crate::model::alpha::word_patterns(k, run.seed, 0);
+        let nm = masks.len() as u64;
+        run.section(&format!("IMPLIES_LUT n={}: {} cubes with literals on the high variables x (cube function, every one-point removal at block boundaries, one-point additions, alphabet tables)", k, nm), false, "cubes over variables >= 4 (one or two literals, optionally a low literal); functions: the cube itself, near-implicants, supersets, irregular tables", nm, 1, |r, l| {
+            for i in r {
+                let (p, q) = masks[i as usize];
+                let m = CubeM::from_masks(p, q);
+                let f = TT::from_fn(k, |a| m.value(a as u64));
+                let mut tables: Vec<TT> = vec![f.clone(), f.not(), TT::zero(k).not(), TT::zero(k)];
+                let nb = nbits(k);
+                let mut pts: Vec<usize> = vec![0, 1, 63, 64, 65, 127, 128, 129, 191, 192, 255, 256, nb / 2 - 1, nb / 2, nb - 65, nb - 64, nb - 1];
+                pts.retain(|x| *x < nb);
+                for a in pts {
+                    let mut g = f.clone();
+                    g.set(a, !f.get(a));
+                    tables.push(g);
+                }
+                tables.extend(pats.iter().rev().take(3).cloned());
+                for t in &tables {
+                    l.states += 1;
+                    rec(l, check_implies_lut(k, t, p, q), format!("implut|{}|{:x}|{:x}|{}", k, p, q, fmt_words(&t.w)), "implies_lut", format!("kind=implies_lut;n={};t={};pa={:x};na={:x}", k, fmt_words(&t.w), p, q), true, i);
+                }
+            }
+        });
+    }
     // up to 32 variables: every cube with <= 2 literals, all ordered pairs of those
     let mut lits: Vec<(u32, u32)> = vec![(0, 0)];
     for v in 0..32 {
